@@ -166,7 +166,7 @@ impl Prop for C16 {
         true
     }
     fn random_cases(tier: Tier) -> u64 {
-        tier.pick(10_000, 200_000)
+        tier.pick(10_000, 5_000_000)
     }
     fn strategy(_tier: Tier) -> BoxedStrategy<Case> {
         let name = prop_oneof![3 => "[a-zA-Z0-9_.]{1,12}", 2 => sjis_string(8), 1 => proptest::sample::select(vec!["Count".to_string(), "Info".to_string(), "".to_string()])];
